@@ -5,6 +5,7 @@ From Coq Require Import ZArith List Bool.
 From BV Require Import Lib.PyVal Gen.K_laxsem Model.LaxSem Proofs.LaxSemProofs.
 From BV Require Gen.G_pool_shape Model.Pool Proofs.PoolSup Proofs.PoolSem Gen.G_laxsem_atomic.
 From BV Require Model.PoolSys Proofs.PoolSysProofs Proofs.PoolRefuted Proofs.PoolMore.
+From BV Require Gen.G_pool_pins.
 Import ListNotations.
 Open Scope Z_scope.
 
@@ -149,3 +150,11 @@ Example C10_witness :
   srun (sem_init 2) [Acquire; Acquire; Acquire; Release; Release; Release; ShrinkStart; ShrinkFinish; Grow; Clear]
   = mk_sem 2 2 0.
 Proof. reflexivity. Qed.
+
+(* the parent-side functions of billiard/pool.py these theorems are about are, on this run, the very
+   text the hand-written model was read against and is validated against by the correspondence
+   (digests of their ASTs, translate/kernels/poolpins.py): any edit of one of them breaks this
+   obligation and starts the deeper search for a failing history *)
+Theorem C10_modelled_code_is_the_validated_text : G_pool_pins.modelled_code_of_C10 = true.
+Proof. reflexivity. Qed.
+Print Assumptions C10_modelled_code_is_the_validated_text.
